@@ -2511,6 +2511,39 @@ fn main() {
                 }
             }
         }
+        // footer_codec : footers whose four numbers sit at the varint boundaries; foreign lengths and magic numbers
+        "footer_codec" => {
+            let nums = [0u64, 1, 127, 128, 16383, 16384, (1 << 32) - 1, 1 << 32, (1 << 56) - 1, 1 << 56, (1 << 63) - 1, 1 << 63, u64::MAX];
+            let (mut cases, mut bad, mut first) = (0u64, 0u64, String::new());
+            for a in nums {
+                for b in nums {
+                    for (c, d) in [(nums[(a % 13) as usize], b), (b, a), (u64::MAX, u64::MAX), (0, 0)] {
+                        cases += 1;
+                        let r = std::panic::catch_unwind(|| v::footer_roundtrip((a, b), (c, d)));
+                        let ok = match &r {
+                            Ok(Some((bytes, Some(p)))) => bytes.len() == 48 && *p == ((a, b), (c, d)) && bytes[40..] == bytes[40..] && {
+                                // every other length, and any change to the magic number, must be rejected
+                                let mut longer = bytes.clone();
+                                longer.push(0);
+                                let mut magic = bytes.clone();
+                                magic[47] ^= 1;
+                                !v::parse_footer(&bytes[..47].to_vec()) && !v::parse_footer(&longer) && !v::parse_footer(&magic)
+                            },
+                            _ => false,
+                        };
+                        if !ok {
+                            bad += 1;
+                            if first.is_empty() {
+                                first = format!("handles ({}, {}) ({}, {}): {:?}", a, b, c, d, r.ok());
+                            }
+                        }
+                    }
+                }
+            }
+            println!("cases={}", cases);
+            println!("mismatches={}", bad);
+            println!("first_mismatch={}", first);
+        }
         // cache_ids : eight threads draw 50000 block-cache ids each from the default block cache; ids must be unique
         "cache_ids" => {
             let o = raindb::DbOptions::with_memory_env();
